@@ -143,7 +143,7 @@ impl Task {
                 .map(expand)
                 .collect::<Result<Vec<String>, _>>()?,
             export: if do_eval {
-                self.expand_export(env)
+                self.expand_export(env)?
             } else {
                 self.export.clone()
             },
@@ -166,7 +166,10 @@ impl Task {
         self._with_env(env, true)
     }
 
-    fn expand_export(&self, env: &im::HashMap<&String, String>) -> Option<Vec<VarExportSpec>> {
+    fn expand_export(
+        &self,
+        env: &im::HashMap<&String, String>,
+    ) -> Result<Option<Vec<VarExportSpec>>, nested_env::ExpandError> {
         VarExportSpec::expand(self.export.as_ref(), env)
     }
 }
